@@ -111,6 +111,31 @@ def run_diff_case(prog, params):
                             break
                 compare_snapshots(sr, u, key, findings, 'state_after')
                 return findings
+            if op in ('rewrite_then_remove', 'recreate_dir_cycle'):
+                # state carried between calls: the same short history on both backends, outcome by outcome, then the trees
+                sr.syms['w1'] = sym_content(ex, 1, 'w1')
+                par = u.parent(v) if v != 'R' else 'R'
+                if op == 'rewrite_then_remove':
+                    seq = ['write {p}%s $w1' % v, 'write {p}%s $w1' % v, 'append {p}%s $w1' % v, 'remove_file {p}%s' % v] + (['remove_dir {p}%s' % par] if par != 'R' else [])
+                else:
+                    seq = ['create_dir {p}%s' % v, 'remove_dir {p}%s' % v, 'create_dir {p}%s' % v, 'write {p}%s $w1' % v, 'remove_dir {p}%s' % v]
+                res_ = {}
+                for pfx in ('M_', 'P_'):
+                    outs_ = []
+                    for ln in seq:
+                        sr.do(ln.replace('{p}', pfx))
+                        outs_.append((ln.split()[0], sr.last))
+                    res_[pfx] = outs_
+                for k_, ((n1, o1), (n2, o2)) in enumerate(zip(res_['M_'], res_['P_'])):
+                    if o1.tag in ('panic', 'deadlock') or o2.tag in ('panic', 'deadlock'):
+                        findings.append(make_finding('C13', key + '|step%d:panic' % k_, '%s panics in a short history' % n1, sr))
+                        return findings
+                    if o1.ok != o2.ok:
+                        findings.append(make_finding('C02', key + '|step%d:%s:success_differs' % (k_, n1),
+                                                     'step %d (%s) of the history returns %s on MemoryFS and %s on PhysicalFS' % (k_, n1, o1.brief(), o2.brief()), sr))
+                        break
+                compare_snapshots(sr, u, key, findings, 'state_after')
+                return findings
             outs = []
             for pfx in ('M_', 'P_'):
                 if dst is not None:
